@@ -126,6 +126,7 @@ def run(ctx):
     _rex_emission(ctx)
     _transforms(ctx)
     _arm_shift_amounts(ctx)
+    _thumb_scaled_offsets(ctx)
     arm_addressing_bits(ctx, "C08.R9")
 
 
@@ -428,6 +429,67 @@ def _arm_shift_amounts(ctx):
             continue
         ctx.ob("C08.R11", site, "`%s n`: 1..31 stored as n, 32 stored as 0, anything else rejected; the decoder maps 0 back to 32" % cname[5:].lower(), not bad, construct="shift-amount:" + cname, detail="(amount, stored): %s" % bad[:5])
         ctx.ob("C08.R11", site, "the transform has a backwards() for the disassembler", bool(bw), construct="shift-backwards:" + cname)
+
+
+# Thumb 16-bit load/store with an immediate offset (ARM ARM A8.8: LDR/STR T1 imm32 = ZeroExtend(imm5:'00'), LDRH/STRH imm5:'0', LDRB/STRB imm5,
+# LDR/STR (SP relative) T2 imm32 = ZeroExtend(imm8:'00')): class -> (operand, access size the field is scaled by, field width, gate)
+# gate "token": the value is stored through a Token slice (the setter rejects what does not fit; its leniency for negative numbers is the known finding
+# C10.R4); gate "none": the halfword is assembled with integer arithmetic, so the encoder itself has to reject everything that does not fit.
+THUMB_SCALED = {"Str2": ("imm5", 4, 5, "token"), "Ldr2": ("imm5", 4, 5, "token"), "Strh": ("imm5", 2, 5, "token"), "Ldrh": ("imm5", 2, 5, "token"),
+                "Strb": ("imm5", 1, 5, "token"), "Ldrb": ("imm5", 1, 5, "token"), "Str1": ("offset", 4, 8, "none"), "Ldr1": ("offset", 4, 8, "none")}
+
+
+def _thumb_scaled_offsets(ctx):
+    from .. import minieval
+    ctx.rule("C08.R12", "Thumb load/store with immediate offset: the field holds the printed byte offset divided by the access size; an offset that is not a multiple of the size is rejected, and where the halfword is built by integer arithmetic so is a negative or too large one (encode() evaluated for offsets -8..4*2^width)", floor=8)
+    rel = "ppci/arch/arm/thumb_instructions.py"
+    for cname, (opname, size, width, gate) in sorted(THUMB_SCALED.items()):
+        cls = ctx.cls(rel, cname)
+        enc = ctx.project.find_method(cls, "encode")
+        ctx.need(enc is not None, "%s: encode() not found" % cname)
+        site = "%s:%s" % (rel, cname)
+        opc = [n.value for c in [cls] for n in c.body if isinstance(n, ast.Assign) and norm(n.targets[0]) == "opcode"]
+        wrong, not_rejected = [], []
+        undec = None
+        for v in range(-8, size * (2 ** width) + 2 * size):
+            env = {"self." + opname: v, "self.rt.num": 3, "self.rn.num": 5, "self.opcode": minieval.ev(opc[0], {}) if opc else 0, "__funcs__": {}}
+            rejected, stored = False, None
+            for st in enc.body:
+                try:
+                    if isinstance(st, ast.Assert):
+                        if not minieval.ev(st.test, env):
+                            rejected = True
+                            break
+                    elif isinstance(st, ast.Assign) and isinstance(st.targets[0], ast.Name):
+                        env[st.targets[0].id] = minieval.ev(st.value, env)
+                    elif isinstance(st, ast.Assign) and isinstance(st.targets[0], ast.Subscript) and norm(st.targets[0].slice) == "6:11":
+                        stored = minieval.ev(st.value, env)
+                    elif isinstance(st, ast.Return) and isinstance(st.value, ast.Call) and norm(st.value.func) == "u16":
+                        h = minieval.ev(st.value.args[0], env)
+                        if h < 0 or h >= 2 ** 16 or (h >> 8) != ((env["self.opcode"] << 8 | 3 << 8) >> 8):
+                            stored = ("corrupt", h)    # the offset spilled into the opcode / register bits
+                        else:
+                            stored = h & 0xFF
+                except minieval.Undecidable as e:
+                    if isinstance(st, (ast.Assert, ast.Return)) or (isinstance(st, ast.Assign) and isinstance(st.targets[0], ast.Subscript) and norm(st.targets[0].slice) == "6:11"):
+                        undec = str(e)
+                    continue
+            if undec:
+                break
+            fits = v >= 0 and v % size == 0 and v // size < 2 ** width
+            if fits:
+                if rejected or stored != v // size:
+                    wrong.append((v, "rejected" if rejected else stored))
+            else:
+                token_rejects = gate == "token" and isinstance(stored, int) and stored >= 2 ** width
+                lenient_negative = gate == "token" and v < 0 and v % size == 0      # Token accepts small negative numbers: known finding C10.R4
+                if not rejected and not token_rejects and not lenient_negative:
+                    not_rejected.append((v, stored))
+        if undec:
+            ctx.undecided("C08.R12", site, "encode(): %s" % undec)
+            continue
+        ctx.ob("C08.R12", site, "offset v (multiple of %d, 0 <= v/%d < %d) is stored as v/%d" % (size, size, 2 ** width, size), not wrong, construct="scaled:" + cname, node=enc, detail="(offset, stored): %s" % wrong[:5])
+        ctx.ob("C08.R12", site, "an offset that is not a multiple of %d%s is rejected" % (size, "" if gate == "token" else ", negative or too large"), not not_rejected, construct="rejects:" + cname, node=enc, detail="(offset, stored) accepted: %s" % not_rejected[:6])
 
 
 def arm_addressing_bits(ctx, rid):
